@@ -253,22 +253,29 @@ def r06_2(ctx):
     out = Outcome("R06.2", "Empty / Whole are singletons: one cached instance per class, copies return self, no "
                            "constructor or instance state below SingletonShape", floor=5)
     fn = ctx.fn("shape.SingletonShape.__new__")
-    # structure: if cls.<F> is None: cls.<F> = super().__new__(cls); return cls.<F>
-    clsn = fn.params[0]
-    tests = [n for n in ast.walk(fn.node) if isinstance(n, ast.If)]
-    rets = [n for n in ast.walk(fn.node) if isinstance(n, ast.Return)]
-    ok = False
-    if len(tests) == 1 and len(rets) == 1:
-        t = tests[0].test
-        if isinstance(t, ast.Compare) and isinstance(t.ops[0], ast.Is) and isinstance(t.left, ast.Attribute) \
-                and pat.is_name(t.left.value, clsn):
-            fld = t.left.attr
-            stores = [s for s in tests[0].body if isinstance(s, ast.Assign) and isinstance(s.targets[0], ast.Attribute)
-                      and s.targets[0].attr == fld and pat.is_name(s.targets[0].value, clsn)]
-            ok = bool(stores) and isinstance(rets[0].value, ast.Attribute) and rets[0].value.attr == fld \
-                and pat.is_name(rets[0].value.value, clsn)
-    (out.ok if ok else out.bad)(fn.qname, "returns the per-class cached instance" if ok else
-                                "does not hand out one cached instance per class", where=fn.where())
+    # abstract run (W): two constructions of one class give the same object, created once; another class another one
+    made = []
+
+    def hook(rn, ev, call, name, recv, args, kwargs):
+        if name == "super":
+            return Obj("super")
+        if name == "__new__":
+            made.append(args[0] if args else None)
+            return Obj(f"instance#{len(made)}")
+        return NotImplemented
+    consts = {k: None for k, v in ctx.model.class_consts.get("SingletonShape", {}).items()
+              if isinstance(v, ast.Constant) and v.value is None}
+    consts.update({k[len("_SingletonShape"):]: None for k in list(consts) if k.startswith("_SingletonShape__")})
+    E, W = Obj("cls:EmptyShape", **consts), Obj("cls:WholeShape", **consts)
+    try:
+        run = Runner(ctx, set(), hook)
+        e1, e2, w1, e3 = (run.call_fn(fn, [c]) for c in (E, E, W, E))
+        ok = e1 is e2 and e1 is e3 and w1 is not e1 and isinstance(e1, Obj) and isinstance(w1, Obj) and made == [E, W]
+        (out.ok if ok else out.bad)(fn.qname, "returns the per-class cached instance" if ok else
+                                    "does not hand out one cached instance per class", where=fn.where(),
+                                    detail="" if ok else f"Empty, Empty, Whole, Empty -> {[e1, e2, w1, e3]}; created for {made}")
+    except (Undecided, Raised) as ex:
+        out.undecided(fn.qname, f"not interpretable: {ex}", where=fn.where())
     for name in ("__copy__", "__deepcopy__"):
         f2 = ctx.fn(f"shape.SingletonShape.{name}")
         r = [n for n in ast.walk(f2.node) if isinstance(n, ast.Return)]
